@@ -244,8 +244,16 @@ def check(ctx):
     factory_key_rule(ctx, "C13.R1")
     # the dispatcher itself looks up by exact type
     ub = model.func(f"{DESER_MOD}.UnionByTypeMethod.deserialize")
-    ok = any(isinstance(n, ast.Subscript) and norm(n.value) == "self.method_by_cls" and norm(n.slice) == "type(data)" for n in walk_no_nested(ub.node))
-    ctx.check(ok, "C13.R1", ub.qualname, ub.node.body[0], "UnionByTypeMethod no longer dispatches on type(data); the key/accept-set rule must be re-derived", ub, ub.node, detail="method_by_cls[type(data)]")
+    tloc = {norm(a.targets[0] if isinstance(a, ast.Assign) else a.target) for a in walk_no_nested(ub.node) if isinstance(a, (ast.Assign, ast.AnnAssign)) and a.value is not None and norm(a.value) == "type(data)"} | {"type(data)"}
+    exact = any((isinstance(n, ast.Subscript) and norm(n.value) == "self.method_by_cls" and norm(n.slice) in tloc) or
+                (isinstance(n, ast.Call) and norm(n.func) == "self.method_by_cls.get" and n.args and norm(n.args[0]) in tloc) for n in walk_no_nested(ub.node))
+    ctx.check(exact, "C13.R1", ub.qualname, ub.node.body[0], "UnionByTypeMethod no longer dispatches on type(data) first; the key/accept-set rule must be re-derived", ub, ub.node, detail="method_by_cls[type(data)] / .get(type(data))")
+    # data of a *subclass* of a JSON class (OrderedDict, str subclasses) is accepted by the alternatives (isinstance tests):
+    # the dispatcher must find them too, after the exact lookup, among the same table
+    fb = [n for n in walk_no_nested(ub.node) if isinstance(n, ast.For) and "self.method_by_cls" in norm(n.iter) and any(isinstance(c, ast.Call) and dotted(c.func) == "isinstance" and norm(c.args[0]) == "data" for c in ast.walk(n))]
+    ctx.check(bool(fb), "C13.R1", f"{ub.qualname}:subclasses", None,
+              "the by-type dispatch only knows the exact class of the datum, while every alternative accepts subclasses (isinstance): deserialize(Union[Dict[str, int], str], OrderedDict(a=1)) is refused although deserialize(Dict[str, int], OrderedDict(a=1)) is accepted",
+              ub, ub.node, detail="isinstance fallback over method_by_cls")
 
     # ---------------- R2
     ctx.rule("C13.R2", "shortcut applicability: one key per alternative, no coerced alternative; Optional only for NoneType + one alternative", floor=3)
@@ -367,6 +375,7 @@ def check(ctx):
     ctx.check(preorder or derived_first, "C13.R8", f"{rs_f.qualname}:order", None, "rec_subclasses no longer yields a class before its own subclasses and the serializer does not reorder: the order of the alternatives is unknown", rs_f, rs_f.node, detail="parent, then its subclasses", nontrivial=False)
 
 def mutants(mb):
+    mb.add_text("by-type-exact-class-only", "apischema/deserialization/methods.py", "            for data_cls, method in self.method_by_cls.items():\n                if isinstance(data, data_cls):\n                    break\n            else:\n                raise bad_type(data, *self.method_by_cls)\n", "            raise bad_type(data, *self.method_by_cls)\n", "C13.R1", "subclasses")
     mb.add_text("discriminator-left-for-aggregates", "apischema/deserialization/methods.py", "            # the discriminator key has been consumed by the union dispatch\n            remain.discard(discriminator)\n", "", "C13.R9", "remain")
     mb.add_text("discriminated-serializer-parents-first", "apischema/discriminators.py", "                target=Union[tuple(reversed(list(rec_subclasses(cls))))],\n", "                target=Union[tuple(rec_subclasses(cls))],\n", "C13.R8", "serializer-order")
     mb.add_text("discriminate-plain-alternative", "apischema/serialization/__init__.py", "                    DiscriminatedAlternative(\n                        expected_class(tp),\n                        self.visit(tp),\n                        self.aliaser(discriminator.alias),\n                        key,\n                    )\n", "                    UnionAlternative(expected_class(tp), self.visit(tp))\n", "C13.R4", "discriminate")
